@@ -1,6 +1,7 @@
 package introspect
 
 import (
+	"bytes"
 	"testing"
 	"unsafe"
 )
@@ -54,13 +55,18 @@ func TestGuardsSkipAliasedSlices(t *testing.T) {
 }
 
 func TestFingerprintSeesPrivateState(t *testing.T) {
-	o := &outer{in: &inner{buf: make([]byte, 10)}}
-	f1 := Fingerprint(o)
-	o.in.buf[3] = 1
-	f2 := Fingerprint(o)
-	o.in.n = 7
-	f3 := Fingerprint(o)
+	// types of the harness itself are skipped by design; a standard library object stands in for a library instance
+	var b bytes.Buffer
+	b.WriteString("abc")
+	f1 := Fingerprint(&b)
+	b.ReadByte() // only the private read offset changes
+	f2 := Fingerprint(&b)
+	b.WriteString("d")
+	f3 := Fingerprint(&b)
 	if f1 == f2 || f2 == f3 {
 		t.Fatalf("fingerprint blind to private state")
+	}
+	if Fingerprint(&b) != f3 {
+		t.Fatalf("fingerprint not deterministic")
 	}
 }
